@@ -1,5 +1,95 @@
-"""Machinery self-check against /verif/fixtures (filled in below)."""
+"""Machinery self-check: analyse /verif/fixtures with the same driver and require exactly the expected verdict for every
+primitive.  A mismatch means the exporter / engine is broken (nightly drift, a bug): the run aborts as BROKEN and no
+property verdict is produced."""
+from . import facts as F
+from .engine import Program
+from .prims import *
+from .guards import find_guard
+
+FX = "echo_verif_fixtures::"
+_done = {}
+
+
+def _expect(cond, what):
+    if not cond:
+        raise SystemExit("BROKEN: fixture self-check failed: " + what)
 
 
 def run(rep):
-    return
+    if _done.get("ok"):
+        return
+    d = F.ensure_fixture_facts()
+    p = Program("fixtures", facts_dir=d)
+    n = 0
+    # A5
+    def cells(fn):
+        out = set()
+        for bb, line, ra, aa in call_pairs(p.fn(FX + fn), r"::intersects$"):
+            for (pa, fa) in ra:
+                for (pb, fb) in aa:
+                    if pa != pb and fa and fb:
+                        out.add((fa[-1], fb[-1]) if pa == 1 else (fb[-1], fa[-1]))
+        return out
+    _expect(cells("conflict_full") == {("w", "w"), ("w", "r"), ("r", "w")}, "A5 full matrix")
+    _expect(cells("conflict_missing_cell") == {("w", "w"), ("w", "r")}, "A5 missing cell")
+    _expect(bool_call_polarity(p.fn(FX + "conflict_full"), p.fn(FX + "conflict_full").call_sites(r"::intersects$")[0]) in ("true", "result"), "A5 polarity")
+    n += 3
+    # A3
+    full, allf, _ = writer_coverage(p, p.fn(FX + "encode_all"), FX + "Rec")
+    drop, _, _ = writer_coverage(p, p.fn(FX + "encode_drops_kind"), FX + "Rec")
+    _expect(set(allf) == {"id", "kind", "body"} and full == {"id", "kind", "body"}, "A3 full coverage (incl. helper return summary): %s" % sorted(full))
+    _expect(drop == {"id", "body"}, "A3 dropped field: %s" % sorted(drop))
+    n += 2
+    # A6
+    _expect(all(not m for bb, m, a in match_absorbed(p.fn(FX + "total"), FX + "Op")) and match_absorbed(p.fn(FX + "total"), FX + "Op"), "A6 total")
+    _expect(any(m == {"B", "C"} for bb, m, a in match_absorbed(p.fn(FX + "wildcard"), FX + "Op")), "A6 wildcard absorbs B,C")
+    n += 2
+    # A1 / A4
+    St = FX + "St"
+    ok_fn, bad_fn = p.fn(St + "::rollback_ok"), p.fn(St + "::rollback_skipped")
+    for f, want in ((ok_fn, True), (bad_fn, False)):
+        restores = f.call_sites(r"St::restore$")
+        oks, errs = ok_return_blocks(f)
+        mut = assign_blocks(f, St, "a")
+        w = f.path([f.blocks[mut[0]]["t"].get("tgt", mut[0]) if False else mut[0]], errs, avoid_blocks=restores)
+        _expect((w is None) == want, "A1 rollback path rule on %s" % f.name)
+    _expect(set(mod_set([bad_fn], St)) - set(mod_set([p.fn(St + "::restore")], St)) == {"b"}, "A4 frame rule finds unrestored field b")
+    n += 3
+    # A2
+    GE = FX + "GErr"
+    _expect(find_guard(p, p.fn(FX + "guard_gates"), GE, "Mismatch", {"c:compute"}, {"f:expected"})[0] == "ok", "A2 gating guard")
+    _expect(find_guard(p, p.fn(FX + "guard_wrong_operands"), GE, "Mismatch", {"c:compute"}, {"f:expected"})[0] == "no-compare", "A2 wrong operands")
+    _expect(find_guard(p, p.fn(FX + "guard_not_gating"), GE, "Mismatch", {"c:compute"}, {"f:expected"})[0] in ("not-gating", "no-compare"), "A2 non-gating guard")
+    n += 3
+    # A8
+    _expect(not interior_mut(p, FX + "Plain")[0] and len(interior_mut(p, FX + "WithCell")[0]) >= 1, "A8 interior mutability scan")
+    n += 1
+    # error discipline
+    def insp(fn):
+        f = p.fn(FX + fn)
+        return result_inspected(f, f.call_sites(r"fixtures::fallible$")[0])[0]
+    _expect(insp("result_propagated") and not insp("result_dropped") and not insp("result_dropped_via_ok"), "result_inspected idioms")
+    n += 1
+    # tag tables
+    from .props.C12 import code_map, from_code_map
+    _expect(code_map(p.fn(FX + "Tag::code"), FX + "Tag") == {"X": 1, "Y": 2} and from_code_map(p.fn(FX + "Tag::from_code"), FX + "Tag") == {1: "X", 2: "Y"}, "A10 tag tables")
+    n += 1
+    # C13 shapes
+    from .props.C13 import upper_bound_gate, reader_atoms
+    def alloc_ok(fn):
+        f = p.fn(FX + fn)
+        b = f.call_sites(r"with_capacity$")[0]
+        return upper_bound_gate(f, f.blocks[b]["t"]["args"][0], b)[0]
+    _expect(not alloc_ok("decode_unbounded") and alloc_ok("decode_bounded_compare") and alloc_ok("decode_bounded_helper"), "C13 allocation gates")
+    n += 1
+    # advance after append
+    W = FX + "Wal"
+    for fn, want in (("advance_after", True), ("advance_before", False)):
+        f = p.fn(W + "::" + fn)
+        ap = f.call_sites(r"fixtures::append$")[0]
+        re_ = result_edges(f, ap)
+        blocks = self_field_assign_blocks(f, W).get("next", [])
+        _expect((reachable_without_edges(f, blocks, re_["ok"]) is None) == want, "A1 advance-after-append on %s" % fn)
+    n += 2
+    rep.note("fixture self-check: %d primitive verdicts matched" % n)
+    _done["ok"] = True
